@@ -68,7 +68,7 @@ SIG_SERVED = 'served-content-wrong'
 SIG_CONVERGE = 'refreshed-tile-still-stale'
 SIG_PROBE = 'is_cached-is_stale-answer-wrong'
 SIG_CRASH = 'unexpected-exception'
-SIG_SEED = 'seed-task-examines-main-tile-only,stale-member-not-refetched'
+SIG_SEED = 'seed-task-did-not-refetch-stale-tile'
 SIG_SEED_WALK = 'seed-task-did-not-examine-every-meta-tile'
 
 
@@ -379,7 +379,12 @@ class World(object):
                 tm.cleanup()
             except Exception:  # noqa
                 pass
-        return examined, handed, completed
+        mains = []
+        for c in examined:
+            mt = my_members(self.meta, c)[0]
+            if not mains or mains[-1] != mt:
+                mains.append(mt)
+        return mains, [sorted(h) for h in handed], completed
 
     def set_ref(self, t):
         if t is None:
@@ -689,13 +694,8 @@ def oracle_seed(ctx, h, s, thr, state, rep, outcome):
     if thr is not None:
         for c in tiles:
             if state(c) == 'stale' and c not in covered:
-                main = my_members(meta, c)[0]
-                if main != c and (state(main) == 'fresh' or (s['skip'] and state(main) == 'missing')):
-                    ctx.fail(SIG_SEED, 'seed task with refresh threshold %r left tile %r (entry %r) stale: only the main tile %r '
-                             '(entry %r, %s) of its meta tile was examined' % (thr, c, before[c], main, before.get(main), state(main)), rep)
-                else:
-                    ctx.fail(SIG_STALE, 'seed task with refresh threshold %r did not fetch stale tile %r (entry %r)'
-                             % (thr, c, before[c]), rep)
+                ctx.fail(SIG_SEED, 'seed task with refresh threshold %r did not fetch stale tile %r (entry %r; main tile of its '
+                         'meta tile %r is %s)' % (thr, c, before[c], my_members(meta, c)[0], state(my_members(meta, c)[0])), rep)
     for cs in calls:
         sts = [state(tuple(c)) for c in cs]
         if all(st == 'fresh' for st in sts) or (s['skip'] and not any(st == 'stale' for st in sts)):
@@ -841,7 +841,8 @@ def fixed_histories():
                         'script': [('ok', True, True), ('ok', True, False)],
                         'events': [('req', [a]), ('ref', t0 - 1), ('req', [a]), ('ref', None), ('req', [a]), ('probe', a),
                                    ('probe', b), ('ref', t0 + 6 * Q), ('req', [a, b])]})
-    # seed task over level 2 with refresh threshold t0+2s: a0 (main tile of its meta tile) fresh, b stale
+    # seed task over level 2 with refresh threshold t0+2s: a0 (main tile of its meta tile) fresh, b stale (former finding
+    # C13-seed: the walker examined the main tile only)
     for backend in ('file', 'sqlite'):
         for meta in (False, True):
             out.append({'backend': backend, 'meta': meta, 'init': [(a, INIT, t0 + 5 * Q), (b, INIT + 1, t0), (c, INIT + 2, t0)],
@@ -925,9 +926,9 @@ def oblit(s):
     if s['kind'] == 'silent':
         return 'OSilent'
     if s['kind'] == 'seed':
-        if s['completed'] not in (True, 'cfg') or any(len(t) != 1 for t in s['handed']):
-            return '(OSeed [(-1, -1, -1)] false)'       # cannot be produced by the model
-        return '(OSeed %s %s)' % (llit([t[0] for t in s['handed']], alit), blit(s['completed'] is True))
+        if s['completed'] not in (True, 'cfg') or any(len(t) == 0 for t in s['handed']):
+            return '(OSeed [[]] false)'                 # cannot be produced by the model
+        return '(OSeed %s %s)' % (llit(s['handed'], lambda t: llit(t, alit)), blit(s['completed'] is True))
     if s['kind'] == 'probe':
         def p(v):
             return 'None' if v == 'cfg' else '(Some %s)' % blit(v)
